@@ -15,4 +15,4 @@ print('baseline: %d/%d stable tests pass' % (len(base) - len(missing), len(base)
 for m in missing: print('  MISSING', m)
 sys.exit(1 if missing else 0)
 PY
-rc=$?; rm -f "$OUT"; exit $rc
+rc=$?; rm -f "$OUT" /repo/rm_info.json; exit $rc   # (a Slurm unit test writes rm_info.json into its cwd)
